@@ -26,7 +26,7 @@ func configs() []*config {
 					name:  fmt.Sprintf("full-ss%d-cap%d-%s", ss, capS, hsName(pattern)),
 					stack: "full", ss: ss, capS: capS, maxFiles: 2, maxBytes: 12, pattern: pattern, slots: 2,
 					newSizes: []int{0, 3},
-					woffs:    []int{0, 1, 3, 5, 8}, wlens: []int{1, 3, 5},
+					woffs:    []int{0, 1, 3, 4, 5, 8}, wlens: []int{1, 3, 5},
 					truncs:   []int{0, 1, 3, 4, 6, 9},
 					faultOps: []string{"devW1", "devW2"},
 					depth:    map[string]int{"quick": 4, "thorough": 6},
@@ -49,7 +49,7 @@ func configs() []*config {
 			woffs:    []int{0, 3, 8}, wlens: []int{1, 5},
 			truncs:   []int{0, 1, 6, 9},
 			faultOps: []string{"base", "baseShort"},
-			depth:    map[string]int{"quick": 5, "thorough": 7},
+			depth:    map[string]int{"quick": 5, "thorough": 8},
 		}
 		if pattern {
 			c.newSizes = []int{3, 7}
@@ -67,7 +67,7 @@ func configs() []*config {
 			name:  fmt.Sprintf("block-ss%d-cap%d-%s", g.ss, g.capS, hsName(g.pattern)),
 			stack: "block", ss: g.ss, capS: g.capS, pattern: g.pattern, slots: 2,
 			newSizes: []int{0, 3},
-			woffs:    []int{0, 1, 3, 5, 8}, wlens: []int{1, 3, 5},
+			woffs:    []int{0, 1, 3, 4, 5, 8}, wlens: []int{1, 3, 5},
 			truncs:   []int{0, 1, 3, 4, 6, 9},
 			faultOps: []string{"devW1", "devW2", "devWtorn"},
 			depth:    map[string]int{"quick": 4, "thorough": 6},
@@ -83,13 +83,45 @@ func configs() []*config {
 	// and wrap around into a fragmented first word.
 	l = append(l, &config{
 		name:  "block-ss2-cap70-word-boundary",
-		stack: "block", ss: 2, capS: 70, ballast: true, slots: 2,
+		stack: "block", ss: 2, capS: 70, ballast: true, slots: 2, preopen: []int{0, 0},
 		newSizes: []int{0},
 		woffs:    []int{0, 1, 4}, wlens: []int{3, 5},
 		truncs:   []int{0, 1, 4},
 		faultOps: []string{"devW1", "devW2"},
-		depth:    map[string]int{"quick": 5, "thorough": 7},
+		depth:    map[string]int{"quick": 4, "thorough": 6},
 	})
+	// 5. Focused on fragmentation, exhaustion and reuse of freed space: both
+	// files exist in the initial state (saves two letters of depth), narrow
+	// sector-aligned alphabet, explored deeper.
+	l = append(l,
+		&config{
+			name:  "frag-block-ss2-cap5-zero",
+			stack: "block", ss: 2, capS: 5, slots: 2, preopen: []int{0, 0},
+			newSizes: []int{0},
+			woffs:    []int{0, 1, 2, 4}, wlens: []int{1, 3},
+			truncs:   []int{0, 1, 2, 3},
+			faultOps: []string{"devW1", "devW2"},
+			depth:    map[string]int{"quick": 4, "thorough": 6},
+		},
+		&config{
+			name:  "frag-block-ss4-cap3-pattern",
+			stack: "block", ss: 4, capS: 3, pattern: true, slots: 2, preopen: []int{7, 3},
+			newSizes: []int{3},
+			woffs:    []int{0, 2, 4, 8}, wlens: []int{1, 5},
+			truncs:   []int{0, 2, 4, 6},
+			faultOps: []string{"devW1", "hs"},
+			depth:    map[string]int{"quick": 4, "thorough": 6},
+		},
+		&config{
+			name:  "frag-full-ss2-cap3-pattern",
+			stack: "full", ss: 2, capS: 3, maxFiles: 2, maxBytes: 12, pattern: true, slots: 2, preopen: []int{3, 3},
+			newSizes: []int{3},
+			woffs:    []int{0, 1, 2, 4}, wlens: []int{1, 3},
+			truncs:   []int{0, 1, 2, 3},
+			faultOps: []string{"devW1", "hs"},
+			depth:    map[string]int{"quick": 4, "thorough": 6},
+		},
+	)
 	return l
 }
 
@@ -105,4 +137,5 @@ func TestMC(t *testing.T) {
 		allocSeq(130, []int{1, 3, 63, 64, 200}, map[string]int{"quick": 5, "thorough": 7}),
 	)
 	mc.Main(t, nil, seqs)
+	printStats()
 }
